@@ -179,7 +179,7 @@ def analyse(g, roots, env_val, env_err, memo=None, hints=None, guards=None):
             A, ea = ev(args[0])
             val = A.sqrt()
             lo = max(A.lo, 0.0) - ea
-            if A.lo - ea < 0 and not fp_nonneg(args[0]) and guard_bounds(g, guards.get(n, ()), args[0])[0] < 0:
+            if A.lo - ea < 0 and not fp_nonneg(args[0]) and guard_bounds(g, guards.get(n, ()), args[0])[0] < 0 and clamp_bounds(args[0])[0] < 0:
                 r = (val, INF)  # the computed radicand may be negative: NaN
             else:
                 if lo > 0:
@@ -214,6 +214,8 @@ def analyse(g, roots, env_val, env_err, memo=None, hints=None, guards=None):
             else:
                 val = IV(dn(dn(math.acos(hi_))), up(up(math.acos(lo_))))
             glo, ghi = guard_bounds(g, guards.get(n, ()), args[0])
+            clo, chi = clamp_bounds(args[0])  # fmax(fmin(x, 1), -1): the COMPUTED argument is inside the clamp exactly
+            glo, ghi = max(glo, clo), min(ghi, chi)
             in_dom = (A.hi + ea <= 1.0 or ghi <= 1.0) and (A.lo - ea >= -1.0 or glo >= -1.0)
             if not in_dom and not normalised_component(args[0]):
                 r = (val, INF)  # the computed argument may leave [-1, 1]: NaN
@@ -230,7 +232,8 @@ def analyse(g, roots, env_val, env_err, memo=None, hints=None, guards=None):
             (Y, ey), (X, ex) = ev(args[0]), ev(args[1])
             rho2 = (IV(X.mig() - ex if X.mig() > ex else 0.0) .sq() + IV(Y.mig() - ey if Y.mig() > ey else 0.0).sq()).lo
             if rho2 <= 0:
-                r = (IV(-math.pi, math.pi), INF)
+                # (0, 0) may be reached: atan2 is discontinuous there but its value always lies in [-pi, pi]
+                r = (IV(-up(math.pi), up(math.pi)), up(2 * math.pi + 1e-9) if math.isfinite(ex) and math.isfinite(ey) else INF)
             else:
                 val = IV(-up(math.pi), up(math.pi))
                 if X.lo - ex > 0:  # right half plane: atan(y/x), monotone in both
@@ -334,6 +337,19 @@ def analyse(g, roots, env_val, env_err, memo=None, hints=None, guards=None):
                 stack.extend(users[1].get(k, ()))
             cache[xn] = d
         return d
+
+    def clamp_bounds(n):
+        """(lo, hi) that the COMPUTED value of node n satisfies whatever the rounding, from fmin / fmax with a constant"""
+        op, args, _ = g.nodes[n]
+        if op in ("FMIN", "FMAX"):
+            (l0, h0), (l1, h1) = clamp_bounds(args[0]), clamp_bounds(args[1])
+            if op == "FMIN":   # min(a, b) <= both; >= the smaller lower bound
+                return min(l0, l1), min(h0, h1)
+            return max(l0, l1), max(h0, h1)
+        c = _const_of(g, n)
+        if c is not None:
+            return c, c
+        return -INF, INF
 
     nn_memo = {}
 
